@@ -210,7 +210,9 @@ def run(ctx):
         "option name (PG DestBundleID, PG Contributor) must come back under any key that is not an option name",
         "a boolean false / port 0 may be encoded or omitted; an error is accepted for every set except a "
         "well-formed set of lower-case values (plain-set-rejected, guards against a vacuous pass)",
-        "ShellSafe is required of the key/value separator only (the one given to grep and cut)",
+        "ShellSafe is required of the key/value separator only (the one given to grep and cut); neither separator may be "
+        "'=' (the script splits the lines of `export` with cut -d '=' -f 2; values holding '=' suffer the same on the "
+        "unchanged tree, which is the script's own limit and not judged)",
         "two units with the same name share one variable: recorded as an observation, not a verdict",
         "the shell script itself (print without -r, cut -d '=' on the export line, quoting of the export "
         "statements printed by cmd/sidecar_param) is outside the property",
